@@ -16,5 +16,5 @@ mkdir -p /verif/seeded/$NAME && cp patch.diff demo_$P.py /verif/seeded/$NAME/
 M=/tmp/seedrun_$P; rm -rf $M; mkdir -p $M; cp -a /repo/skoolkit /repo/c $M/; rm -f $M/skoolkit/*.so
 (cd $M && patch -p1 -s < $W/patch.diff) || { echo "patch does not apply"; exit 2; }
 cd /verif
-for C in $CHECKS; do echo "== SKOOLKIT_REPO=$M ./check $C"; SKOOLKIT_REPO=$M ./check $C 2>&1 | grep -v "^KNOWN-FINDING" | tail -5 | cut -c1-260; done
+for C in $CHECKS; do echo "== SKOOLKIT_REPO=$M ./check $C"; VERIF_EVIDENCE_DIR=/tmp/seed_evidence SKOOLKIT_REPO=$M ./check $C 2>&1 | grep -v "^KNOWN-FINDING" | tail -5 | cut -c1-260; done
 rm -rf $M
